@@ -65,6 +65,9 @@ def inst(ast, env):
     if k == "i":
         s = env.lookup(ast[1])
         return s.nz[ast[2]] if s.numel() > 1 else s
+    if k == "pw":  # piecewise constant in time: value of the interval [t0 + i dt, t0 + (i+1) dt) that contains t
+        vals, t0, dt = ast[1], ast[2], ast[3]
+        return ca.MX(ca.DM(vals))[ca.floor((env.stage.t - t0) / dt)]
     if k == "next":
         return env.stage.next(inst(ast[1], env))
     if k == "prev":
